@@ -85,7 +85,14 @@ class ScriptedSweeper(generic_implicit):
             # the answer cannot be read: the budget test / forced stop alone decides (a changed test shows in niter)
             conv = False
         else:
-            conv = cur.ctx.choose(2, f'conv b{cur.block} s{S.status.slot} c{S.status.iter}', cfg.get('conv_cost', 0)) == 1
+            nans = bool(cfg.get('nan_answers'))
+            ans = cur.ctx.choose(3 if nans else 2, f'conv b{cur.block} s{S.status.slot} c{S.status.iter}', cfg.get('conv_cost', 0))
+            conv = ans == 1
+            if ans == 2:
+                # a residual that is not a number (right-hand side left its domain, inf - inf): not below any tolerance
+                cur.conv[key] = False
+                L.status.residual = float('nan')
+                return None
         cur.conv[key] = conv
         L.status.residual = 0.25 * RESTOL if conv else 4.0 * RESTOL
         return None
@@ -202,7 +209,13 @@ class ObservingController(controller_nonMPI):
 
     def send_full(self, S, level=None, add_to_stats=False):
         cur = CUR
+        Lv = S.levels[level]
+        before = (Lv.tag, id(Lv.uend))
         super().send_full(S, level=level, add_to_stats=add_to_stats)
+        if cur is not None and 'recv' in cur.cfg['checks'] and S.status.last and (Lv.tag, id(Lv.uend)) != before:
+            # the last active step of a block has no receiver: it must not provide anything (providing = computing the
+            # end value anew and stamping the tag)
+            cur.v('transfer_without_receiver', sender=S.status.slot, level=level, tag=Lv.tag, stage=S.status.stage, active=list(cur.active))
         if cur is not None and 'recv' in cur.cfg['checks'] and not S.status.last:
             # bookkeeping for "every forward transfer is consumed": a transfer provided for a successor that is still
             # listening (not finished, predecessor not known to be finished) must be received exactly once before the
